@@ -154,7 +154,7 @@ def snapshot_loop_sends(prog, ty, cg, mm, rm):
                 if n.ast is None or not any(a is lp for a in ancestors(n.ast)):
                     continue
                 for c in node_calls(n):
-                    if is_method_call(c, "send_message") and ty.expr(f, recv_of(c)).is_cls("Module") and not any(isinstance(a, ast.ExceptHandler) for a in ancestors(c)):
+                    if is_method_call(c, module_writers(prog)) and ty.expr(f, recv_of(c)).is_cls("Module") and not any(isinstance(a, ast.ExceptHandler) for a in ancestors(c)):
                         uses.append((n, c))
             if not uses:
                 continue
@@ -205,3 +205,72 @@ def comprehension_facts(fnode: ast.FunctionDef, var: str):
                 for c in conj:
                     out.append((ast.fix_missing_locations(_Rename(it.elt.id, var).visit(copy.deepcopy(c))), True))
     return out
+
+
+_writers_cache: Dict[int, Tuple[str, ...]] = {}
+
+
+def module_writers(prog: Program) -> Tuple[str, ...]:
+    """Names of the Module methods that write to the client socket (self.conn.send / sendall, directly or through
+    another such method): read off the current source, so that a writer added next to send_message is seen as one."""
+    if id(prog) in _writers_cache:
+        return _writers_cache[id(prog)]
+    mc = prog.cls(MGR, "Module")
+    names: Set[str] = set()
+    changed = True
+    while changed:
+        changed = False
+        for nm, f in mc.methods.items():
+            if nm in names:
+                continue
+            conn_names = {"self.conn"} | {t.id for a in walk_local(f.node) if isinstance(a, ast.Assign) and path_of(a.value) == "self.conn" for t in a.targets if isinstance(t, ast.Name)}
+            for c in calls_in(f.node):
+                if isinstance(c.func, ast.Attribute) and ((c.func.attr in ("send", "sendall", "sendmsg") and path_of(c.func.value) in conn_names) or (c.func.attr in names and path_of(c.func.value) == "self")):
+                    names.add(nm)
+                    changed = True
+                    break
+    if "send_message" not in names:
+        raise AnalysisError("anchor vanished: Module.send_message no longer writes to self.conn")
+    _writers_cache[id(prog)] = tuple(sorted(names))
+    return _writers_cache[id(prog)]
+
+
+def client_read_coverage(prog, cg, mm):
+    """For every socket receive in MessageManager: [(function, call, handlers or None)] where handlers are the
+    ConnectionError handlers that cover it - in the same function, or around every call chain leading to it (the
+    handler may live in read_message itself or around its call in run()).  None = some chain is uncovered."""
+    from ..program import ancestors
+
+    def catches(h):
+        if h.type is None:
+            return True
+        names = [norm(x).split(".")[-1] for x in (h.type.elts if isinstance(h.type, ast.Tuple) else [h.type])]
+        return any(x in ("ConnectionError", "OSError", "Exception", "BaseException", "ConnectionResetError") for x in names)
+
+    def cover(f, call, depth=0, seen=()):
+        for a in ancestors(call):
+            if isinstance(a, ast.Try) and any(call in calls_in(st) for st in a.body):
+                hs = [h for h in a.handlers if catches(h)]
+                if hs:
+                    return hs
+            if a is f.node:
+                break
+        if depth > 4 or f.key in seen:
+            return None
+        sites = cg.call_sites_of(f.key)
+        if not sites:
+            return None
+        out = []
+        for cf, cc in sites:
+            r = cover(cf, cc, depth + 1, seen + (f.key,))
+            if r is None:
+                return None
+            out.extend(r)
+        return out
+
+    res = []
+    for f in mm.methods.values():
+        for c in calls_in(f.node):
+            if is_method_call(c, ("recv", "recv_into", "recvfrom")):
+                res.append((f, c, cover(f, c)))
+    return res
